@@ -9,9 +9,31 @@ returns a program or errors) is C11's model; the runtime part (no panic in libra
 observed by the harness in child processes.
 -/
 import ThriftVerif.Compile.DivergeProofs
+import ThriftVerif.Compile.TotalProofs
 
 namespace ThriftVerif.Properties.C08
 open ThriftVerif.Compile
+
+/-- **Verdicts other than "diverges" do not depend on the fuel.** If `compile` answers ok/err
+with some fuel it gives the same answer with any larger fuel: the only fuel-relative verdict
+is exhaustion. -/
+theorem verdict_fuel_independent {pre : Bool} {fuel : Nat} {o : Orders} {src : Program} {r : Res Compiled}
+    (h : compileWith pre fuel o src = r) (hr : r ≠ .fuel) :
+    ∀ g, fuel ≤ g → compileWith pre g o src = r :=
+  compileWith_mono h hr
+
+/-- **Totality (partial): programs without constants and defaults.** With an explicit measure
+— `linkBound p = (#named types + #services + 2) · (total size of all definition bodies and
+signatures + 2) + 4`: every `Link` call either descends into a strictly smaller part of one
+definition or flags a definition never flagged before —
+the linker terminates under every visit order: include cycles, typedef cycles (reported as
+errors by `findTypeCycles`), struct nesting and recursion, service inheritance (also cyclic).
+*Partial*: constants and default values are excluded (`TypesOnly`); for them termination needs
+NoConstCycle ∧ NoStructDefaultCycle and fails without (D4, D40 below). -/
+theorem compile_total_partial {pre : Bool} {o : Orders} {src : Program} {p : GProg}
+    (hg : gather src = some p) (ht : TypesOnly p) :
+    ∀ fuel, linkBound p ≤ fuel → compileWith pre fuel o src ≠ .fuel :=
+  compileWith_total_typesOnly hg ht
 
 /-- **Non-termination witness (D4).** `const i32 a = b  const i32 b = a`: `compile.Compile` does
 not return, whatever the stack size. -/
@@ -45,7 +67,9 @@ def includeLoop : Program := ⟨true, [
   .ok [⟨false, nm "a", some 0⟩] [.struct .struct (nm "S") [⟨some 1, nm "f", .optional, .ref (nm "a.S"), none⟩],
     .service (nm "W") (some (nm "a.V")) []]]⟩
 
-example : (match compile 10 [] typedefCycle with | .err => true | _ => false) = true := by decide +kernel
-example : (compile 20 [] includeLoop).isOk = true := by decide +kernel
+example : (gather typedefCycle).map (fun p => (decide (TypesOnly p), linkBound p)) = some (true, 48) := by decide +kernel
+example : (match compile 48 [] typedefCycle with | .err => true | _ => false) = true := by decide +kernel
+example : (gather includeLoop).map (fun p => (decide (TypesOnly p), linkBound p)) = some (true, 148) := by decide +kernel
+example : (compile 148 [] includeLoop).isOk = true := by decide +kernel
 
 end ThriftVerif.Properties.C08
